@@ -90,6 +90,31 @@ def check (name : String) (path : Path) (k : Nat) (flag : Bool) (before after : 
       same (rewriteAt (fuseLoops (bf.drop b.length)) path before) after
     | .ite _ _ _ :: .ite _ _ _ :: _, _ => same (rewriteAt fuseIfs path before) after
     | _, _ => throw "fuse: unexpected shape"
+  | "shift_loop" =>
+    match sa with
+    | .loop _ nlo _ _ _ :: _ => same (rewriteAt (shiftLoop nlo) path before) after
+    | _ => throw "shift_loop: unexpected shape"
+  | "unroll_loop" => same (rewriteAt unrollLoop path before) after
+  | "divide_loop_perfect" | "divide_loop_guard" | "divide_loop_cut" | "divide_loop_cut_and_guard" =>
+    let tail := match name with
+      | "divide_loop_perfect" => 0 | "divide_loop_guard" => 1 | "divide_loop_cut" => 2 | _ => 3
+    match sb, sa with
+    | .loop i _ _ b _ :: _, .loop io _ ohi [.loop ii _ _ _ _] _ :: rest =>
+      -- the tail loop's iterator and renamed body copy are read off the output
+      let (i3, copy) : Sym × List Stmt := match tail, rest with
+        | 2, .loop i3 _ _ b3 _ :: _ => (i3, b3)
+        | 3, .ite _ [.loop i3 _ _ b3 _] _ :: _ => (i3, b3)
+        | _, _ => (ii, b)
+      -- the copy must be the body up to renaming, after undoing the substitution on neither side:
+      -- compare the substituted copies instead (same substitution on both)
+      same (rewriteAt (fun ss => match tail with
+          | 0 | 1 => divideLoop k tail io ii i3 ohi b ss
+          | _ => match ss with
+            | .loop i' lo hi b' par :: r =>
+              -- build main from the input, tail from the input body (renaming is absorbed by alpha comparison)
+              divideLoop k tail io ii i3 ohi b' (.loop i' lo hi b' par :: r)
+            | _ => none) path before) after
+    | _, _ => throw "divide_loop: unexpected shape"
   | _ => throw s!"no model for {name}"
 
 end Exo.Rw
